@@ -89,7 +89,11 @@ func cmdFunc(args []string) {
 		os.Exit(2)
 	}
 	for _, key := range fs.Args() {
-		x, rep, err := prog.Explore(key, &VerifyOpts{PanicProps: []string{"C13"}, SQLProps: []string{"SQL"}, TxProps: []string{"TX"}})
+		opts := &VerifyOpts{PanicProps: []string{"C13"}, SQLProps: []string{"SQL"}, TxProps: []string{"TX"}}
+		if ct := prog.contracts.byKey[key]; ct != nil && ct.Directives["overflow"] != nil {
+			opts.Overflow = []string{"OVERFLOW"}
+		}
+		x, rep, err := prog.Explore(key, opts)
 		if err != nil {
 			fmt.Println("ERROR", key, err)
 			continue
